@@ -49,7 +49,7 @@ MaxAbsCoord(g) == LET P == PointSet(g, FALSE) IN
 HasComps(items) == \E i \in 1..Len(items) : items[i].k = "g"
 AllOnFirst(items) == \A i \in 1..Len(items) : (items[i].k = "c" /\ items[i].cl) => FirstOn(items[i].pts) = 1
 
-OK == <<"ok">>
+OK == <<"ok", "">>
 (* equal as bags of contours, closed contours compared up to their start point *)
 SameBag(ga, gb) == /\ Len(ga) = Len(gb)
                    /\ \A i \in 1..Len(ga) : Cardinality({j \in 1..Len(gb) : SameCyclic(ga[i], gb[j])})
@@ -114,7 +114,11 @@ RunVerdict(t, run, sh) ==
     ELSE OK
   ELSE IF a \in {TT, T2, SVG} THEN
     (* <<a, in, out, flag, gs>>; gs = 0 or the index of the base glyph of component 1 *)
-    LET items0 == IF run[5] = 0 THEN si.items ELSE Flatten(si.items, 1, [x \in {1} |-> sh[run[5]].items], FALSE)
+    (* a TrueType glyph keeps its components when nothing else is drawn (lone points are dropped by the
+       builder), otherwise it is decomposed: the recorded output tells which; it is compared against the
+       input as is, or against the decomposed input *)
+    LET items0 == IF run[5] = 0 \/ (a = TT /\ HasComps(so.items)) THEN si.items
+                  ELSE Flatten(si.items, 1, [x \in {1} |-> sh[run[5]].items], FALSE)
         items == IF a = T2 THEN RoundShape(items0, K) ELSE items0
         shp == Good(items)
     IN IF ~Exact(shp) THEN R("malformed:scale")
@@ -133,14 +137,20 @@ RunVerdict(t, run, sh) ==
          ELSE (IF GeoPlain(go) = GeoPlain(gi) THEN OK ELSE R("geometry"))
   ELSE R("malformed:unknown-adapter")
 
-RECURSIVE FirstBad(_, _, _)
-FirstBad(t, i, sh) ==
-  IF i > Len(t.r) THEN OK
-  ELSE LET v == RunVerdict(t, t.r[i], sh) IN IF v = OK THEN FirstBad(t, i + 1, sh) ELSE <<v[1], v[2], i>>
+(* every failing run is reported: the verdict is a sequence of <<adapter, clause, run index>> *)
+RECURSIVE AllBad(_, _, _)
+AllBad(t, i, sh) ==
+  IF i > Len(t.r) THEN <<>>
+  ELSE LET v == RunVerdict(t, t.r[i], sh) IN
+       (IF v = OK THEN <<>> ELSE <<<<v[1], v[2], i>>>>) \o AllBad(t, i + 1, sh)
 
-Judge(t) == LET sh == [i \in 1..Len(t.s) |-> ShapeOf(t.s[i])] IN FirstBad(t, 1, sh)
+Pending == <<<<"pending", "", 0>>>>
+Accepted == <<<<"ok", "", 0>>>>
+Judge(t) == LET sh == [i \in 1..Len(t.s) |-> ShapeOf(t.s[i])]
+                bad == AllBad(t, 1, sh)
+            IN IF bad = <<>> THEN Accepted ELSE bad
 
-Init == tid \in 1..NTraces /\ verdict = <<"pending">>
-Next == verdict = <<"pending">> /\ verdict' = Judge(Traces[tid]) /\ UNCHANGED tid
-Report == (verdict \notin {<<"pending">>, OK}) => Reject(tid, verdict)
+Init == tid \in 1..NTraces /\ verdict = Pending
+Next == verdict = Pending /\ verdict' = Judge(Traces[tid]) /\ UNCHANGED tid
+Report == (verdict \notin {Pending, Accepted}) => \A i \in 1..Len(verdict) : Reject(tid, verdict[i])
 =============================================================================
